@@ -135,14 +135,16 @@ def explore_model(ctx, om, sc, C, py_cap, dist):
         partial.append((T, ctx.rng.randint(1, min(len(fresh[T][0]) - 1, 40))))
     shared_levels = []
     for T, n in partial:
+        f0 = omen_gen.FILL_CALLS[0]
         out, st = omen_gen.run_level(grammar, T, co.opt, cap=n)
-        shared_levels.append((T, out, False))
+        shared_levels.append((T, out, False, omen_gen.FILL_CALLS[0] - f0))
         if out != fresh[T][0][:n]:
             vio.append({"sig": "C10:cache-dependence", "what": "level %d: first %d guesses differ between a shared and a new Optimizer" % (T, n),
                         "replay": {"om": om, "T": T, "history": [p[0] for p in partial]}})
     hist = [p[0] for p in partial]
     for T in order:
         h0 = co.hits
+        f0 = omen_gen.FILL_CALLS[0]
         out, st = omen_gen.run_level(grammar, T, co.opt, cap=py_cap)
         dist["shared_runs"] += 1
         if (out, st) != fresh[T]:
@@ -156,31 +158,37 @@ def explore_model(ctx, om, sc, C, py_cap, dist):
             dist["levels_with_memo_hits"] += 1
         hist.append(T)
         if not st.startswith("error"):
-            shared_levels.append((T, out, st == "done"))
+            shared_levels.append((T, out, st == "done", omen_gen.FILL_CALLS[0] - f0))
     info["levels"] = Ts
     entries = omen_gen.optimizer_entries(co.opt)
     dist["optimizer_entries"] += len(entries)
     return {"om": om, "grammar": grammar, "raised": False, "levels": shared_levels, "entries": entries}, vio, info
 
 
-def coq_case(case, coq_cap, model_cap, dist):
-    """Gallina literal of one case, levels cut to the Coq budget."""
+def coq_case(case, coq_cap, model_cap, dist, call_cap):
+    """Gallina literal of one case, levels cut to the Coq budget (strings and
+    search work measured as calls of _fill_out_parse_tree)."""
     ip, ln, cp = omen_gen.loaded_tables(case["grammar"])
     lv = []
     total = 0
-    for T, out, complete in case["levels"]:
-        if total >= model_cap:
+    work = 0
+    skipped_any = False
+    for T, out, complete, calls in case["levels"]:
+        work += calls
+        if total >= model_cap or work > call_cap:
             dist["coq_levels_skipped"] += 1
+            skipped_any = True
+            total = max(total, model_cap)      # nothing after a skipped level: Coq replays a prefix of the history
             continue
         if len(out) > coq_cap:
             out, complete = out[:coq_cap], False
             dist["coq_levels_prefix_only"] += 1
         total += len(out) + 5
         lv.append("((%d)%%Z, %s, %s)" % (T, omen_gen.cstrs(out), common.cbool(complete)))
-    skipped = total >= model_cap
+    skipped = skipped_any or total >= model_cap
     check_cache = (not case["raised"]) and (not skipped) and case["entries"] is not None and len(case["entries"]) <= 1200
     # the cache comparison is only meaningful when Coq replays every call of the history
-    if any(len(o) > coq_cap for _, o, _ in case["levels"]):
+    if any(len(o) > coq_cap for _, o, _, _ in case["levels"]):
         check_cache = False
     dist["coq_cache_compared"] += bool(check_cache)
     return "(mk_case %s\n %s\n %s\n %s\n %s\n %s\n %s\n %s)" % (
@@ -200,6 +208,8 @@ def run(ctx):
     py_cap = ctx.scale(5000, 20000)
     coq_cap = ctx.scale(150, 250)
     model_cap = ctx.scale(900, 1500)
+    call_cap = ctx.scale(16000, 30000)
+    omen_gen.count_fill_calls()
     dist = Counter()
     vio, cases, samples = [], [], []
     seen, nontrivial, evaluations = set(), 0, 0
@@ -226,14 +236,14 @@ def run(ctx):
             seen.add(key)
             nontrivial += len(info["nontrivial"])
         cases.append(case)
-        if len(samples) < 3 and case["levels"] and any(len(o) > 3 for _, o, _ in case["levels"]):
-            T, o, _ = max(case["levels"], key=lambda x: len(x[1]))
+        if len(samples) < 3 and case["levels"] and any(len(o) > 3 for _, o, _, _ in case["levels"]):
+            T, o, _, _ = max(case["levels"], key=lambda x: len(x[1]))
             samples.append({"ngram": om["ngram"], "alphabet": om["alphabet"], "modes": om["modes"], "level": T,
                             "emitted": len(o), "first": o[:4]})
     # ---- correspondence
     # balanced shards: largest case first onto the least loaded shard
     nsh = min(len(cases), common.NCPU) or 1
-    lits = [coq_case(c, coq_cap, model_cap, dist) for c in cases]
+    lits = [coq_case(c, coq_cap, model_cap, dist, call_cap) for c in cases]
     load = [0] * nsh
     members = [[] for _ in range(nsh)]
     for i in sorted(range(len(cases)), key=lambda i: -(len(lits[i]) + 40 * len(cases[i]["om"]["cp"]))):
